@@ -119,7 +119,7 @@ def test_replay():
     import mc.runner as r
     rec = json.loads(Path(r"{path}").read_text())
     mod = r.load_check("{prop}")
-    bad = mod.replay(rec["case"])
+    bad = r.replay_record(mod, rec)
     assert not bad, bad
 
 if __name__ == "__main__":
@@ -152,6 +152,61 @@ def validate_evidence(path: Path):
         text=True,
     )
     return "ok" if r.returncode == 0 else "INVALID: " + r.stderr[-400:]
+
+
+def _sized(found, value):
+    """Context: every listed size constant of every listed module set to `value`."""
+    import contextlib
+    import importlib
+
+    from mc.datasets import Sized
+
+    st = contextlib.ExitStack()
+    for name, names in (found or {}).items():
+        st.enter_context(Sized(importlib.import_module(name), value, names))
+    return st
+
+
+def replay_record(mod, rec):
+    """Replay one recorded violation (honours the size-constant setting it was found under)."""
+    case = rec["case"]
+    sz = None
+    if isinstance(case, dict) and "_sizes" in case:
+        case = dict(case)
+        sz = case.pop("_sizes")
+    with _sized(sz["constants"] if sz else {}, sz["value"] if sz else None):
+        return mod.replay(case)
+
+
+def _sized_passes(mod, ctx, base_wall):
+    """Chunk / batch / buffer size constants that the modules under check have but the check does not vary itself are part
+    of the configuration space (mokapot reads them from MOKAPOT_* environment variables): if there are any, the whole
+    enumeration is repeated with all of them set to 1, 2, 3 (only 2 when one pass takes more than 30 s).  On the pinned
+    tree there are none and this is an empty dimension (recorded in the evidence)."""
+    import importlib
+
+    from mc.datasets import DEFAULT_CHUNKS, size_constants
+
+    found = {}
+    for name in getattr(mod, "SIZE_MODULES", ()):
+        try:
+            m = importlib.import_module(name)
+        except Exception:
+            continue
+        names = [k for k in size_constants(m) if k not in DEFAULT_CHUNKS]
+        if names:
+            found[name] = names
+    ctx.info["size_constants_not_varied_by_the_check"] = found
+    if not found:
+        return
+    for v in ((1, 2, 3) if base_wall < 30 else (2,)):
+        n0 = len(ctx.acc.violations)
+        with _sized(found, v):
+            mod.run(ctx)
+        for viol in ctx.acc.violations[n0:]:
+            if isinstance(viol.get("case"), dict):
+                viol["case"]["_sizes"] = {"value": v, "constants": found}
+        ctx.acc.count(f"passes_with_size_constants_set_to_{v}")
 
 
 def main(argv=None):
@@ -200,7 +255,7 @@ def main(argv=None):
         scratch = Path(tempfile.mkdtemp(prefix=f"mokaverif_{prop}_", dir=core.scratch_root()))
         os.environ["VERIF_SCRATCH"] = str(scratch)
         try:
-            bad = mod.replay(rec["case"])
+            bad = replay_record(mod, rec)
         finally:
             shutil.rmtree(scratch, ignore_errors=True)
         for v in bad:
@@ -216,6 +271,7 @@ def main(argv=None):
     t0 = time.time()
     try:
         mod.run(ctx)
+        _sized_passes(mod, ctx, time.time() - t0)
     finally:
         shutil.rmtree(scratch, ignore_errors=True)
     wall = time.time() - t0
